@@ -111,7 +111,7 @@ Record shape := {
   s_le0_keeps : bool;         (* `if (m_maxFileCount <= 0) return;` in removeOldFiles() *)
   s_index_max1 : bool;        (* findNextIndexForDate: maxIndex + 1 over the matching entries *)
   s_name_by_cur : bool;       (* rotate(): the name carries m_currentLogDate (not today) *)
-  s_anchored : bool;          (* both name patterns are ^...$ *)
+  s_anchored : bool;          (* both name patterns are ^...\z (anchored at the very end: `$` would also accept a final line feed) *)
   s_escaped : bool;           (* base name, date and suffix go through QRegularExpression::escape *)
   s_gz_optional : bool;       (* both patterns end in (\.gz)? *)
   s_append : bool             (* FileSink and rotate() open with QIODevice::Append *)
